@@ -8,6 +8,7 @@
   reports, moves them — unless the group auto-discovers its bounds, and then they are the minimum and maximum of the
   cloud description the scan starts from (which `runOnce_fresh` shows to be an answer of that same scan).
 -/
+import EscProofs.P.GenDecide
 import EscProofs.P.Fresh
 import EscProofs.P.C04
 namespace Esc.P
